@@ -16,8 +16,10 @@ PROP = dict(
                            "monitor:crossings-complete": 200000, "state:part-at-limit-65535": 1000, "run:cases": 1000,
                            "exhaustive:instances": 5 * 97655, "data:non-finite": 500}),
               dict(name="c18_cxx", src=["c18_cxx.cpp", "c18_oracle.c"], libs=["mpt++", "mptio", "mptplot", "mptcore"], batch=512,
+                   cflags=["-fno-sanitize=vptr"],
                    floors={"linepart::array::apply": 50000, "linepart::array::set": 10000, "transform::part": 100000,
-                           "monitor:cut-fraction": 20000, "monitor:two-dimension-lists": 10000}),
+                           "monitor:cut-fraction": 20000, "monitor:two-dimension-lists": 10000,
+                           "polyline::set": 5000, "monitor:polyline-points": 100000, "monitor:polyline-parts-iterated": 50000}),
               ],
         rule=("case = (a) one class sequence (exhaustive by index) instantiated in 5 scalings, or (b) one PRNG sequence of 1..300 reals "
               "with a PRNG range, or (c) one data set with a run of 65533..65538 points of one kind plus head/tail classes, or several runs "
